@@ -119,6 +119,11 @@ func c07Once(e *env, c *Case, o *outcome, md protoreflect.MessageDescriptor, fds
 	if len(calls) == 0 {
 		if resp.Code >= 400 {
 			o.count("c07_conflicting_request_rejected_(allowed)")
+			if c.Mux == muxProxied && resp.Code == 503 {
+				// the unavailable provider was picked: not judged, try again
+				o.count("c07_proxied_unavailable_provider_picked_(not_judged)")
+				return true
+			}
 		} else {
 			o.add("c07:no-handler-no-error:"+c.Class, fmt.Sprintf("%s %s?%s answered %d without reaching the handler", c.Req.Verb, c.Req.Path, queryLabel(c.Req.RawQuery), resp.Code))
 		}
@@ -807,7 +812,7 @@ func (g *gen) c07Case(p *plan, v pathVar, idx int, qv, bv string, ex c07Extra) (
 	return c, nil
 }
 
-const ruleC07 = "every rule of the C03 catalogue with at least one path variable (vf.Req, ComplexRequest and the real larking.testpb annotations incl. Files.UploadDownload; top-level, nested and doubly nested fields; typed, enum, oneof and well-known-type variables; body '*', body <field>, no body). For every variable and several captures: competing, different values for the same field through the query string (proto name, JSON name, the key twice, before / after another key) and / or the body (JSON, protobuf, gzip JSON; body '*' or a body field that contains the variable), all combinations. In addition, for every variable on a nested field: 1-3 query parameters on same-typed sibling sub-messages (vf.Req sub / osub, ComplexRequest nested / oneof_nested; the sibling's field of the same name first) before / after the competing key, x query x body competitors; and for every variable: a repeated query field of 10, 63, 64, 65, 200, 1000 elements next to the competitors. These requests are served 4 times each (query parameters are applied in map order). Oracle: the handler's value of the field equals the protojson value of the path capture, and - for the cases with non-competing parameters on rules without body '*' - the whole message equals the capture(s) plus every parameter the client sent; a request rejected with an error status is allowed. Streaming HTTP rules (HttpBody uploads on client-streaming and bidi methods incl. the real Files.LargeUploadDownload, server-streaming downloads) run the query matrix with every way the handler can obtain the first message (stream.Recv looping to EOF, larking.AsHTTPBodyReader; replies through stream.Send and larking.AsHTTPBodyWriter). The body competitor also comes as application/x-www-form-urlencoded (with / without charset), multipart/form-data, text/plain and application/json; charset=utf-8: whatever the tree accepts must not override the path, a refusal is no claim. Also 13, 14, 20 and 40 URL parameters on distinct keys (one naming the bound field), each request served 20 times. The catalogue includes constant variables ({f=lit}, {f=lit/lit}, typed {f=true}, {e=RED}, the real Messaging.Action {text=action}) and variables of every scalar kind and bytes (top-level and nested) on rules that map a body; bytes captures are spelled std / url-safe, padded / unpadded; bodies carry the competing value or do not name the field at all, with fillers of 0-6000 bytes. A quarter of the requests send the path in an over-escaped spelling (URL.RawPath set): the capture is the decoded path text. A fifth of the cases on dynamic unary rules go to a mux that proxies a real loopback gRPC back-end attached with RegisterConn. Variables bound to (fields under) members of a oneof get competitors naming SIBLING members in query and body. Templates ending in ** (bare or variable) after other variables are also requested with a zero-segment tail (with / without trailing slash): refused or bound as usual. Typed variables also capture odd texts (null, NULL, Null, nil, undefined, NaN, true, false, 0, -0, none, Infinity) next to query / body competitors: the route may be refused or the field holds a proto3-JSON reading of the text, never the competitor. Control frames (ping, unsolicited pong) are interleaved before the first and between data frames. WebSocket transport (real loopback listener through larking.NewServer): websocket-kind bindings on bidi methods (vf.Req top-level / nested / typed / bytes / multi-segment variables, body '*' and body field; the real testpb ChatRoom.Chat) with the competing value in the query string, in the first frame and / or in later frames (1-3 frames, each acknowledged by the handler): the first message the handler receives must carry the capture. distinct = (rule, variable, query variant, body variant, sibling / list-size variant | websocket frame variant) of dispatched requests that kept the capture"
+const ruleC07 = "every rule of the C03 catalogue with at least one path variable (vf.Req, ComplexRequest and the real larking.testpb annotations incl. Files.UploadDownload; top-level, nested and doubly nested fields; typed, enum, oneof and well-known-type variables; body '*', body <field>, no body). For every variable and several captures: competing, different values for the same field through the query string (proto name, JSON name, the key twice, before / after another key) and / or the body (JSON, protobuf, gzip JSON; body '*' or a body field that contains the variable), all combinations. In addition, for every variable on a nested field: 1-3 query parameters on same-typed sibling sub-messages (vf.Req sub / osub, ComplexRequest nested / oneof_nested; the sibling's field of the same name first) before / after the competing key, x query x body competitors; and for every variable: a repeated query field of 10, 63, 64, 65, 200, 1000 elements next to the competitors. These requests are served 4 times each (query parameters are applied in map order). Oracle: the handler's value of the field equals the protojson value of the path capture, and - for the cases with non-competing parameters on rules without body '*' - the whole message equals the capture(s) plus every parameter the client sent; a request rejected with an error status is allowed. Streaming HTTP rules (HttpBody uploads on client-streaming and bidi methods incl. the real Files.LargeUploadDownload, server-streaming downloads) run the query matrix with every way the handler can obtain the first message (stream.Recv looping to EOF, larking.AsHTTPBodyReader; replies through stream.Send and larking.AsHTTPBodyWriter). The body competitor also comes as application/x-www-form-urlencoded (with / without charset), multipart/form-data, text/plain and application/json; charset=utf-8: whatever the tree accepts must not override the path, a refusal is no claim. Also 13, 14, 20 and 40 URL parameters on distinct keys (one naming the bound field), each request served 20 times. The catalogue includes constant variables ({f=lit}, {f=lit/lit}, typed {f=true}, {e=RED}, the real Messaging.Action {text=action}) and variables of every scalar kind and bytes (top-level and nested) on rules that map a body; bytes captures are spelled std / url-safe, padded / unpadded; bodies carry the competing value or do not name the field at all, with fillers of 0-6000 bytes. A quarter of the requests send the path in an over-escaped spelling (URL.RawPath set): the capture is the decoded path text. A fifth of the cases on dynamic unary rules go to a mux that proxies the services of TWO real loopback gRPC back-ends attached with RegisterConn, one healthy and one whose handlers answer Unavailable (503 answers are not judged; each such case is served 4 times). Variables bound to (fields under) members of a oneof get competitors naming SIBLING members in query and body. Templates ending in ** (bare or variable) after other variables are also requested with a zero-segment tail (with / without trailing slash): refused or bound as usual. Typed variables also capture odd texts (null, NULL, Null, nil, undefined, NaN, true, false, 0, -0, none, Infinity) next to query / body competitors: the route may be refused or the field holds a proto3-JSON reading of the text, never the competitor. Control frames (ping, unsolicited pong) are interleaved before the first and between data frames. WebSocket transport (real loopback listener through larking.NewServer): websocket-kind bindings on bidi methods (vf.Req top-level / nested / typed / bytes / multi-segment variables, body '*' and body field; the real testpb ChatRoom.Chat) with the competing value in the query string, in the first frame and / or in later frames (1-3 frames, each acknowledged by the handler): the first message the handler receives must carry the capture. distinct = (rule, variable, query variant, body variant, sibling / list-size variant | websocket frame variant) of dispatched requests that kept the capture"
 
 // RunC07 is the path-bound-fields-are-authoritative check.
 func RunC07(r *mon.Run) {
@@ -889,6 +894,9 @@ func RunC07(r *mon.Run) {
 					ee, c.Mux = envRopt, muxWithOptions
 				case rule.Svc == "" && kind != "":
 					ee, c.Mux = envs[kind], kind
+				}
+				if c.Mux == muxProxied && c.Repeat < 4 {
+					c.Repeat = 4 // one of the two providers answers Unavailable
 				}
 				if c.Mux != "" {
 					c.Via += ",mux=" + c.Mux
